@@ -534,6 +534,18 @@ where
         }
     };
 
+    // If the redirection fails after this point, the target FD is left
+    // unmodified, so the saved copy must be closed so as not to leak it.
+    struct SaveGuard<S: Close>(S, Option<Fd>);
+    impl<S: Close> Drop for SaveGuard<S> {
+        fn drop(&mut self) {
+            if let Some(fd) = self.1 {
+                let _: Result<(), Errno> = self.0.close(fd);
+            }
+        }
+    }
+    let mut save_guard = SaveGuard(env.system.clone(), save);
+
     // Prepare an FD from the redirection body
     let (fd_spec, location, exit_status) = match &redir.body {
         RedirBody::Normal { operator, operand } => {
@@ -574,6 +586,7 @@ where
         let _: Result<(), Errno> = env.system.close(target_fd);
     }
 
+    save_guard.1 = None;
     let original = target_fd;
     Ok((SavedFd { original, save }, exit_status))
 }
